@@ -147,12 +147,31 @@ Proof.
   unfold sys_path_restores_on_exception. exact S.
 Qed.
 
+(* the attribute walk runs inside the scope too: what a lazy module __getattr__ imports there sees the temporary list *)
+Lemma getattrs_inner :
+  forall N w parts owner s, good N s ->
+    good N (snd (getattrs w owner parts s)) /\ frame N s (snd (getattrs w owner parts s)).
+Proof.
+  intros N w parts. induction parts as [| p r IH]; intros owner s G; simpl.
+  - split; [exact G | apply frame_refl].
+  - destruct (lookup_attr (w_attr w) owner p) as [[y |] |].
+    + simpl. split; [exact G | apply frame_refl].
+    + apply IH. exact G.
+    + destruct (mem_name owner (w_lazy w)); [| simpl; split; [exact G | apply frame_refl]].
+      unfold import_module.
+      destruct (import_prefixes_inner N w (owner ++ [p]) [] s G) as [G1 F1].
+      destruct (import_prefixes w [] (owner ++ [p]) s) as [res s1]. simpl in *.
+      destruct res as [x |]; simpl; [split; assumption |].
+      destruct (IH (owner ++ [p]) s1 G1) as [G2 F2]. split; [exact G2 | eapply frame_trans; eauto].
+Qed.
+
 Lemma dynamic_import_stable :
   forall w n paths s, paths <> [] -> wf s -> stable s (snd (dynamic_import w n paths s)).
 Proof.
   intros w n paths s Hp Hwf. unfold dynamic_import. apply with_sys_path_stable; auto.
   intros N s0 G. destruct (dyn_attempts_inner N w (rev n) [] s0 G) as [G1 F1].
-  destruct (dyn_attempts w (rev n) [] s0) as [[x | [m objs]] s1]; simpl in *; split; assumption.
+  destruct (dyn_attempts w (rev n) [] s0) as [[x | [m objs]] s1]; simpl in *; [split; assumption |].
+  destruct (getattrs_inner N w objs m s1 G1) as [G2 F2]. split; [exact G2 | eapply frame_trans; eauto].
 Qed.
 
 Lemma mem_path_nonempty : forall p l, mem_path p l = true -> l <> [].
@@ -463,6 +482,18 @@ Example one_slot_does_not_nest :
   heap (fst (scoped_one_slot [["outer"]] (scoped_one_slot [["inner"]] (fun x => x)) (s0, 0))) 1 = [["outer"]] /\
   (* without nesting the shared slot does no harm: sequential scopes restore *)
   cur (fst (scoped_one_slot [["b"]] (fun x => x) (scoped_one_slot [["a"]] (fun x => x) (s0, 0)))) = cur s0.
+Proof. vm_compute. repeat split. Qed.
+
+(* non-vacuity of the attribute walk inside the scope: the package `p` has a lazy module __getattr__; importing `p.a` fails
+   after inserting into sys.path; dynamic_import falls back on getattr(p, "a"), which imports `p.a` a second time -- still
+   inside `with sys_path(...)`, so both insertions hit the temporary list and sys.path comes back untouched *)
+Example lazy_getattr_inside_scope :
+  let top := mkMod ["p"] ["sp"; "p"] "__init__" ".py" None in
+  let a := mkMod ["p"; "a"] ["sp"; "p"] "a" ".py" None in
+  let w := mkWorldL [("p", FPkg top [a] None)]
+                    [(["p"], mkBeh (Some ["sp"]) true [] None); (["p"; "a"], mkBeh None true [EIns0 ["vendored"]] (Some XRuntimeError))] [] [] [["p"]] in
+  let '(r, s') := session w true true true true [["sp"]] (Some (RNode "p" [])) [] (init_state [["orig"]]) in
+  r = None /\ cur s' = 0 /\ heap s' 0 = [["orig"]] /\ List.length (executions s') = 3 /\ heap s' 2 = [["vendored"]; ["vendored"]; ["sp"]].
 Proof. vm_compute. repeat split. Qed.
 
 (* non-vacuity of the entry-point theorem: `search_paths=None` in an interpreter whose sys.path holds the package;
